@@ -19,6 +19,8 @@ type C01Case struct {
 	GoTypes map[string]string `json:"go_types,omitempty"`
 	// Opts: options that must not change the meaning of a query that does not use their alternative syntax
 	Opts Opts `json:"opts,omitempty"`
+	// Scale: large table: t is expanded from the rows of the document by this recipe before anything is computed
+	Scale *Scale `json:"scale,omitempty"`
 }
 
 func init() {
@@ -26,7 +28,7 @@ func init() {
 		ID:    "C01",
 		Title: "WHERE keeps exactly the rows that satisfy the predicate, in source order",
 		Rule: "rapid draws a typed table t (2-5 columns of kind int/num/str/bool, some nullable, 0-10 rows from small per-column value pools, " +
-			"LIKE-hostile strings included; a third of the numeric columns are handed to the engine as native Go values of another numeric type: int*, uint*, float32), a second table t2 for IN-subqueries and a predicate tree (depth<=5) over = != <> < <= > >= / [NOT] IN / " +
+			"LIKE-hostile strings included; about 2.5% of the cases expand t to 200-700 rows by a recipe; a third of the numeric columns are handed to the engine as native Go values of another numeric type: int*, uint*, float32), a second table t2 for IN-subqueries and a predicate tree (depth<=5) over = != <> < <= > >= / [NOT] IN / " +
 			"IN (SELECT..) / [NOT] BETWEEN / [NOT] LIKE / IS [NOT] NULL|TRUE|FALSE / AND OR NOT; oracle = independent reference filter " +
 			"(sequence equality) for p and NOT(p), plus engine-vs-engine rewrites (BETWEEN -> >= AND <=, NOT IN -> NOT(IN), NOT LIKE -> NOT(LIKE)). " +
 			"The predicate, its negation and the rewrites run one after the other on the same input object; a quarter of the IN-subqueries read the filtered table itself; a quarter of the cases run under PostgresEscapingDialect and/or IdiomaticArrays (the queries use neither double quotes nor brackets, string pools include caseless multi-byte text). Non-trivial: >=2 rows and 0 < kept < n. Distinct = distinct JSON encodings of (doc, predicate).",
@@ -97,6 +99,11 @@ func genC01(t *rapid.T) any {
 		}
 	}
 	c.SQL = "SELECT * FROM t WHERE " + sq.Render(pred, nil)
+	// scale: exactly the satisfying rows, each once and in source order, whatever the size of the table
+	c.Scale = genScale(t, 20, "scale")
+	if c.Scale != nil && len(tb.Rows) == 0 {
+		c.Scale = nil
+	}
 	return c
 }
 
@@ -186,6 +193,13 @@ func seqEqual(a, b []any) bool {
 
 func checkC01(c *C01Case) Result {
 	res := Result{}
+	if c.Scale != nil {
+		cc := *c
+		cc.Doc, cc.Scale = c.Scale.ExpandDoc(c.Doc, "t"), nil
+		res = checkC01(&cc)
+		res.Labels = append(res.Labels, "large-table")
+		return res
+	}
 	rows, _ := c.Doc["t"].([]any)
 	env := &sq.Env{Doc: c.Doc}
 	keep, drop, err := refFilter(rows, c.Pred, env)
